@@ -114,6 +114,13 @@ def make_oracle(docs):
                 return {"key": "C04:%s:in-range-status-stops" % cmdname,
                         "what": "status %s in the device's error range at step %d of %s stops the "
                                 "manager (reply %r)" % (hex(fault[1]), meta["step"], meta["name"], r["raw"])}
+        if fault[0] in ("T", "W", "R") and meta["reached"](obs) and not meta.get("benign"):
+            # a time-out or a link error is an outcome of the exchange like any other: it gets a code
+            if r["stop"] or j is None or not isinstance(j.get("errorcode"), int):
+                return {"key": "C04:%s:link-outcome-without-code" % cmdname,
+                        "what": "%s at step %d of %s: reply %r, manager stopped: %s"
+                                % ({"T": "time-out", "W": "write error", "R": "read error"}[fault[0]],
+                                   meta["step"], meta["name"], r["raw"][:60], r["stop"])}
         if j is None or not isinstance(j.get("errorcode"), int):
             return None      # unanswered / stopped: allowed outside the device range (C03 covers requests)
         code = j["errorcode"]
@@ -186,6 +193,26 @@ def gen_cases(rng, tier, words=None):
                 cases.append({"mode": mode, "kind": "ledger", "lines": [gen.line(req)], "script": script,
                               "meta": dict(base, fault=f, step=i, reached=reached, benign=benign,
                                            step_kind=step_kind(name, apdus[i]))})
+    # histories: the named statuses of one block command after the other block command has run on the
+    # same manager (tables shared between the two must not leak one command's codes into the other)
+    std = {name: (mode, req, dev) for name, mode, req, dev in commands.standard_requests(rng)}
+    for first, second in (("advanceBlockchain", "updateAncestorBlock"), ("updateAncestorBlock", "advanceBlockchain")):
+        m1, r1, d1 = std[first]
+        m2, r2, d2 = std[second]
+        a1, _ = commands.honest_transcript(m1, r1, d1)
+        a2, o2 = commands.honest_transcript(m2, r2, d2)
+        ap2 = [e[1] for e in o2["trace"] if e[0] == "A"]
+        j2 = stack.reply_json(o2["replies"][-1])
+        chunk_steps = [i for i, a in enumerate(ap2) if step_kind(second, a) in ("adv-chunk", "upd-chunk")][:2]
+        for i in chunk_steps:
+            for w in sorted(set(ADV_NAMED) | set(UPD_NAMED)):
+                n_at = len(a1) + i
+                cases.append({"mode": "v5", "kind": "ledger", "lines": [gen.line(r1), gen.line(r2)],
+                              "script": list(a1) + list(a2[:i]) + [("S", w)],
+                              "meta": {"name": second, "command": r2["command"], "honest_code": j2["errorcode"],
+                                       "fault": ("S", w), "step": i, "benign": False,
+                                       "reached": (lambda o, n_at=n_at: len([e for e in o["trace"] if e[0] == "A"]) > n_at),
+                                       "step_kind": step_kind(second, ap2[i]), "history": first}})
     return cases
 
 
@@ -196,7 +223,7 @@ def _sweep_task(args):
     """all 65536 status words at one step of one shape: returns (coq term, violations, nclasses)"""
     import random as _r
     shape_idx, step, seed = args
-    shapes = commands.standard_requests(_r.Random(seed))
+    shapes = commands.standard_requests(_r.Random(seed), compact=True)
     name, mode, req, dev = shapes[shape_idx]
     answers, obs0 = commands.honest_transcript(mode, req, dev)
     apdus = [e[1] for e in obs0["trace"] if e[0] == "A"]
@@ -261,7 +288,7 @@ def sweep(ctx, res):
     import coqgen
     seed = ctx["seed"] * 31 + 5
     import random as _r
-    shapes = commands.standard_requests(_r.Random(seed))
+    shapes = commands.standard_requests(_r.Random(seed), compact=True)
     tasks = []
     kinds = set()
     for si, (name, mode, req, dev) in enumerate(shapes):
@@ -288,7 +315,7 @@ def sweep(ctx, res):
         if term is not None:
             terms.append(term)
     n, bad, errs = coqgen.run_case_files(os.path.join(ctx["workdir"], "sweep"), SWEEP_HEADER, "check_sweep",
-                                         terms, shard=1, timeout=3000)
+                                         terms, shard=1, timeout=14000)
     res["compared"] += n * 65536
     res["corr_errors"] += errs
     for b in bad[:10]:
